@@ -15,7 +15,7 @@ CONSTANTS
   Buds = {0, 2}
   NSAs = {FALSE, TRUE}
   OptSets <- OptsAgent
-  Budgets = {2, 4, 7}
+  Budgets = {4}
 VIEW MCView
 INVARIANTS TypeOK AtMostOnce ExactlyOnce Unbiased KeptRowsFactorGE1 NoSampleAgentKept SameFactorInLeaf FitsNothingSampled FairShare FixedWithinBudget FairShareRemaining FitIsJustified Monotone KeptWithinBudget QuotaWithinTotal QuotaProportional QuotaFitIsSize QuotaWithinTotalAnyRounding ExportDone
 CHECK_DEADLOCK FALSE
